@@ -35,7 +35,12 @@ LockDiscipline(ev) ==
          /\ ev[Len(ev)][1] = "U"
          /\ \A i \in 2..(Len(ev) - 1) : ev[i][1] \in {"P", "p", "C"}
 
+\* a follow-up operation on a handle whose previous operation met a read failure may fail too (the error may be
+\* remembered); what it may not do is succeed with rows missing
+Lenient(e) == "lenient" \in DOMAIN e /\ e.lenient /\ e.err # ""
+
 Failed(e) ==
+    IF Lenient(e) THEN {} ELSE
     LET T  == Trees[e.db]
         o  == e.o
         Rr == [out |-> e.out, cbn |-> e.cbn, err |-> e.err, found |-> e.found]
@@ -59,7 +64,9 @@ Step ==
     /\ LET e == Trace[l]
            f == Failed(e)
        IN  /\ bad' = IF f = {} THEN bad ELSE Append(bad, [i |-> l, why |-> f])
-           /\ drift' = IF e.conf /\ ~Conforms(e) THEN Append(drift, l) ELSE drift
+           /\ drift' = IF e.conf /\ ~Conforms(e)
+                        THEN Append(drift, [i |-> l, mev |-> IF Len(drift) < 3 THEN Run(Trees[e.db], e.o, SeqRange(e.cache0)).ev ELSE <<>>])
+                        ELSE drift
            /\ specbad' = IF SpecAgrees(e) THEN specbad ELSE Append(specbad, l)
     /\ l' = l + 1
 
